@@ -26,9 +26,10 @@ CONSTANTS MaxFixed, MaxArgs, VariadicNilPtr, EmitCases
 PTypes == {"string", "int", "bool", "iface"}
 \* "arr" an array literal ([]interface{}), "strs" a []string variable: slices are ONE argument each, also
 \* where their type happens to be the slice type of a variadic parameter
-ArgKinds == {"str", "int", "bool", "nil", "hash", "arr", "strs"}
+\* "nilptr": a context variable holding a typed nil pointer -- a value like any other (not the nil literal)
+ArgKinds == {"str", "int", "bool", "nil", "hash", "arr", "strs", "nilptr"}
 ArgType(a) == CASE a = "str" -> "string" [] a = "int" -> "int" [] a = "bool" -> "bool" [] a = "hash" -> "map" [] a = "nil" -> "nil"
-                [] a = "arr" -> "anyslice" [] a = "strs" -> "strslice"
+                [] a = "arr" -> "anyslice" [] a = "strs" -> "strslice" [] a = "nilptr" -> "ptr"
 \* (), (T), (T, nil error), (T, failing error), (failing error), (nil error); Snil / Serr: (struct, nil error) / (struct, failing
 \* error) where the call is followed by a member path (h(...).Name)
 Results == {"none", "T", "Tnil", "Terr", "err", "nilerr", "Snil", "Serr"}
